@@ -61,8 +61,6 @@ theorem C36_tgen_bits : Extracted.bitTxn = Badger.bitTxn := by decide
 theorem C37_tgen_threshold_ops : op_writeToLSM_threshold = "<" ∧ op_modify_inmem_vallen = ">" := by decide
 theorem C04_tgen_bits : Extracted.bitDelete = Badger.bitDelete := by decide
 theorem C14_tgen_l0l0 : op_l0l0_min_tables = "<" := by decide
-end Badger
-
 /-! Orderings of effects inside one function (`ord_*`: first occurrence of statement A relative to
     statement B in the source of that function). The models perform these effects in this order. -/
 theorem C15_tgen_clamp_before_scan : ord_rewrite_clamp_scan = "before" := by decide
@@ -73,3 +71,4 @@ theorem C07_tgen_manifest_order :
     ord_flush_manifest_wal = "before" ∧ ord_compact_manifest_replace = "before" := by decide
 theorem C03_tgen_commit_order :
     ord_commit_lock_ts = "before" ∧ ord_commit_ts_send = "before" ∧ ord_commit_wait_done = "before" := by decide
+end Badger
